@@ -1,13 +1,17 @@
 #!/bin/bash
-# tools/try_mutant.sh <Cxx> <patch.diff> [more checks...]: apply a seeded change to /repo, run the check(s), undo it.
+# tools/try_mutant.sh <Cxx> <patch.diff> [more checks...]: apply a seeded change to a SCRATCH COPY of /repo
+# (so /repo itself is never touched while other work is running) and run the check(s) against the copy
+# through VERIF_REPO. The registered commands always use /repo; to reproduce the official way:
+#   git -C /repo apply <patch>; ./check Cxx; git -C /repo checkout -- .
 set -u
 P=$1; PATCH=$2; shift 2
-cd /repo || exit 2
-if [ -n "$(git status --porcelain)" ]; then echo "/repo is not clean"; exit 2; fi
-git apply "$PATCH" || { echo "patch does not apply"; exit 2; }
+S=/tmp/verif-mutant-repo
+rm -rf $S && mkdir -p $S && git -C /repo archive HEAD | tar -x -C $S || exit 2
+( cd $S && git init -q . && git apply "$PATCH" ) || { echo "patch does not apply"; rm -rf $S; exit 2; }
 cd /verif
 for c in $P "$@"; do
-  echo "=== ./check $c (with $PATCH applied)"
-  timeout 1800 ./check $c 2>&1 | grep -E "^VIOLATION|^KNOWN-FINDING|^\[$c\]" | cut -c1-260 | head -12
+  echo "=== VERIF_REPO=$S ./check $c   (with $PATCH applied)"
+  VERIF_REPO=$S timeout 2400 ./check $c 2>&1 | grep -E "^VIOLATION|^KNOWN-FINDING|^\[$c\]" | cut -c1-240 | head -12
 done
-git -C /repo checkout -- . && git -C /repo status --porcelain
+rm -rf $S
+git checkout -q -- evidence 2>/dev/null
